@@ -3,6 +3,7 @@
 # Like run_seeded.sh, but leaves /repo and /verif untouched: the seeded change is applied to a
 # scratch worktree /tmp/vs/repo and the checks run from a scratch copy /tmp/vs/verif whose harness
 # depends on that worktree. (Used while long runs against /repo are in progress.)
+# NOSYNC=1 keeps the scratch copy of /verif as it is (frozen snapshot for long batches).
 # tools/run_seeded_scratch.sh --clean removes the scratch area.
 set -u
 if [ "${1:-}" = "--clean" ]; then
@@ -13,7 +14,7 @@ here="$(cd "$(dirname "$0")/.." && pwd)"
 mkdir -p /tmp/vs
 if [ ! -d /tmp/vs/repo ]; then git -C /repo worktree add --detach /tmp/vs/repo HEAD -q || exit 9; fi
 git -C /tmp/vs/repo checkout -q --detach "$(git -C /repo rev-parse HEAD)"; git -C /tmp/vs/repo checkout -q -- .
-rsync -a --delete --exclude 'harness/target*' --exclude 'fuzz/target*' --exclude out --exclude .git --exclude replays --exclude evidence "$here/" /tmp/vs/verif/
+[ "${NOSYNC:-}" = 1 ] || rsync -a --delete --exclude 'harness/target*' --exclude 'fuzz/target*' --exclude out --exclude .git --exclude replays --exclude evidence "$here/" /tmp/vs/verif/
 mkdir -p /tmp/vs/verif/replays /tmp/vs/verif/evidence /tmp/vs/verif/out
 sed -i 's|path = "/repo"|path = "/tmp/vs/repo"|' /tmp/vs/verif/harness/Cargo.toml /tmp/vs/verif/fuzz/Cargo.toml 2>/dev/null
 p=$d/patch.diff; [ -f $d/patch.rebased.diff ] && p=$d/patch.rebased.diff
